@@ -102,7 +102,12 @@ def _encode(items, opt):
 
 def _run_impl(code, opt):
     levels, mk, flat, lead, ih = opt
-    secs = code.get_sections(levels=levels, matches=_matches_arg(mk), flat=flat,
+    # "an iterable of integers": lists, tuples, iterators and generators in turn
+    lv = levels
+    if levels is not None:
+        kind = (len(code.nodes) + mk + int(flat)) % 4
+        lv = [levels, tuple(levels), iter(levels), (x for x in levels)][kind]
+    secs = code.get_sections(levels=lv, matches=_matches_arg(mk), flat=flat,
                              include_lead=lead, include_headings=ih)
     views = []
     for s in secs:
@@ -191,6 +196,7 @@ def _nontrivial(items):
 
 def run(tier, seed):
     c = vlib.Check("C12", tier, seed, "proof")
+    vlib.pure_python_parser()
     c.prove("C12.v")
     pages = _pages(tier, seed)
     results = vlib.pmap(_worker, vlib.chunked(pages, 64))
